@@ -205,6 +205,12 @@ func Diff(want, got ref.Outcome) map[string]string {
 		}
 	}
 	if want.End != got.End {
+		// cases that are missing only because the execution stopped early belong to the end mismatch
+		for c, w := range res {
+			if len(gm[c]) == 0 && strings.Contains(w, "got \"<missing>\"") {
+				delete(res, c)
+			}
+		}
 		last := "start"
 		if n := len(got.Lines); n > 0 {
 			last = caseOf(got.Lines[n-1])
